@@ -22,7 +22,7 @@ LEVEL_TEXT = (
     "messages and their template-patched variants; a step budget of 7 x (50000 + 2000 x len) interpreter events - two orders of magnitude "
     "above genuine decodes and linear in the input - turns non-termination into a replayable violation. Sampling, not proof."
 )
-RUNS = {"quick": 160000, "thorough": 1200000}
+RUNS = {"quick": 160000, "thorough": 5000000}
 CHUNK = {"quick": 200, "thorough": 2000}
 BUDGET_S = {"quick": 100, "thorough": 2400}
 RULE = (
